@@ -204,6 +204,17 @@ def step (s : Sys) (toks : List String) : Sys × String :=
     | some c =>
       let a := advance s.now c .base
       withDump (s.setCtx a.1) (showBool a.2)
+  -- public attributes of the live context re-assigned from outside (`ctx.resources_acquired = b`, `.execution_complete`,
+  -- `.validation_passed`): with them `advance` can take an operation through every phase and round the cycle (M → G0)
+  | ["flag", o, f, b] =>
+    match s.ctx? (natD o) with
+    | none => withDump s "noop"
+    | some c =>
+      let c' : Ctx := if f = "r" then { c with resAcq := boolOf b } else if f = "e" then { c with execDone := boolOf b }
+        else if f = "v" then { c with valPassed := boolOf b } else c
+      withDump (s.setCtx c') "ok"
+  -- `cell.agent_operations[agent] = operation id` assigned from outside: nothing in the coordination layer reads it
+  | ["track", _, _] => withDump s "ok"
   | ["shutdown"] => withDump (shutdown s) "ok"
   | ["adv", d] => withDump { s with now := s.now + natD d } "ok"
   | ["deadlock"] =>
@@ -238,6 +249,7 @@ def step (s : Sys) (toks : List String) : Sys × String :=
         [if c.success then "cell:ok" else if c.blockedByCoordination then "cell:blocked" else "cell:post-raise"])
   -- search-only lines (outside the property's quantifier: the model has no such operation and says so)
   | "nest" :: _ => (s, "search-only")
+  | "cnest" :: _ => (s, "search-only")
   | _ => (s, "bad-op")
 
 /-! ### several systems alive at the same time
